@@ -195,3 +195,35 @@ def check_forward_gate(rep, prog, rid):
                               "forwarded" % sorted(cnd.lit_canon(l, b) for l in lits), where=where(b, t["sp"][1]))
     if n == 0:
         rep.anchor_missing(rid, "no call of with_forward_tlvs found")
+
+
+def check_state_writes(rep, prog, rid):
+    """port_state changes ONLY through set_forced_port_state (which replaces and demobilizes the servo when slave is
+    left, and is what the FSM extraction sees): no other function assigns / swaps the field"""
+    n = 0
+    bad = 0
+    for b in prog.bodies.values():
+        if b.unit.name != "statime-lib" or b.is_test():
+            continue
+        owner = b
+        cg = callgraph(prog)
+        while owner.is_closure:
+            p = cg.lookup(owner.unit, owner.parent)
+            if p is None:
+                break
+            owner = p
+        if owner.name == "set_forced_port_state":
+            n += 1
+            continue
+        for (bi, line, what) in kills_port_state(b, range(len(b.blocks))):
+            if what == "set_forced_port_state":
+                continue
+            bad += 1
+            rep.violation(rid, b.key, "direct write of port_state",
+                          "%s outside set_forced_port_state: the state changes without the servo being replaced and "
+                          "demobilized (a port that left slave keeps steering) and without the transition being visible to "
+                          "the state-machine rules" % what, where=where(b, line))
+    if n == 0:
+        rep.anchor_missing(rid, "set_forced_port_state not found")
+    elif bad == 0:
+        rep.ok(rid, "statime::port::<Port>", "port_state written only in set_forced_port_state")
